@@ -514,6 +514,17 @@ fn build_event_native(
 ) {
     let variants: Vec<Vec<i64>> = def.variants().map(|v| v.data().map(id1).collect()).collect();
     let data: Vec<Value> = def.datum_definitions().map(datum_json).collect();
+    // the same offsets again, this time through the definition's index by datum id
+    let voffs: Vec<Vec<i64>> = def
+        .variants()
+        .map(|v| {
+            v.data()
+                .map(|d| {
+                    catch_unwind(AssertUnwindSafe(|| off(def[d].details().offset()))).unwrap_or(-2)
+                })
+                .collect()
+        })
+        .collect();
     let max_size = catch_unwind(AssertUnwindSafe(|| def.max_size() as i64)).unwrap_or(-1);
     let max_align = catch_unwind(AssertUnwindSafe(|| def.max_type_align() as i64)).unwrap_or(-1);
     let display = catch_unwind(AssertUnwindSafe(|| def.to_string()));
@@ -525,7 +536,7 @@ fn build_event_native(
     let code0 = gen(vec![]);
     let code1 = gen(vec![Box::new(CloneImplGenerator), Box::new(SerdeImplGenerator)]);
     let (cap, aligns) = code0.as_ref().map_or((-1, vec![]), |c| parse_consts(c));
-    let mut ev = json!({"ev":evname,"res":"ok","variants":variants,"data":data,
+    let mut ev = json!({"ev":evname,"res":"ok","variants":variants,"data":data,"voffs":voffs,
         "max_size":max_size,"max_align":max_align,
         "display": if display.is_ok() {"ok"} else {"panic"},
         "generate": if code0.is_ok() && code1.is_ok() {"ok"} else {"panic"},
@@ -542,7 +553,8 @@ fn build_event_native(
 fn build_event_generic(def: &RecordDefinition<Shape>, extra: Value, out: &mut Out, evname: &str) {
     let variants: Vec<Vec<i64>> = def.variants().map(|v| v.data().map(id1).collect()).collect();
     let data: Vec<Value> = def.datum_definitions().map(gdatum_json).collect();
-    let mut ev = json!({"ev":evname,"res":"ok","variants":variants,"data":data,
+    let voffs: Vec<Vec<i64>> = variants.iter().map(|v| v.iter().map(|_| -1).collect()).collect();
+    let mut ev = json!({"ev":evname,"res":"ok","variants":variants,"data":data,"voffs":voffs,
         "max_size":0,"max_align":1,"display":"ok","generate":"ok","pub_cap":0,
         "pub_aligns":Vec::<i64>::new(),"code_hash":"","display_hash":""});
     for (k, v) in extra.as_object().unwrap() {
